@@ -111,7 +111,14 @@ class Sim:
         Sim.current = self
         self._patch(udp6, "socket", SocketShim(self.net))
         self._patch(udp6, "getaddrinfo", self.net.make_getaddrinfo())
-        bias = draw_bias or {}
+        bias = dict(draw_bias or {})
+        # unless a check says otherwise, the library's initial message ID and token counter are drawn with a bias
+        # towards the ends of their ranges, so that the 16-bit message ID wraps around and the token changes its
+        # byte length within a run
+        bias.setdefault("mm", {"randint": lambda r, a, b: r.choice([a, b, b - 1, b - 2, b - 5, b - 20, r.randint(a, b),
+                                                                     r.randint(a, b), r.randint(a, b)])})
+        bias.setdefault("tm", {"randint": lambda r, a, b: r.choice([a, 254, 255, b - 1, b, r.randint(a, b),
+                                                                     r.randint(a, b), r.randint(a, b)])})
         self.draws["mm"] = DrawSource(self.decider, "mm", bias.get("mm"))
         self.draws["tm"] = DrawSource(self.decider, "tm", bias.get("tm"))
         self._patch(mm, "random", self.draws["mm"])
